@@ -172,7 +172,7 @@ func genDL(purpose string) func(t *rapid.T) dlCase {
 			c.WinMax = rapid.SampledFrom([]int64{math.MaxInt64, math.MaxInt64 - 1, 1 << 62, int64(290 * 365 * 24 * time.Hour)}).Draw(t, "winmaxHuge")
 		}
 		c.Threshold = rapid.SampledFrom([]int64{1, 1, 1000, 100_000, 2_000_000, 0, -5}).Draw(t, "threshold") // <= 0: no RTT filter at all
-		dynCase := purpose == "c02" && rapid.IntRange(0, 4).Draw(t, "dynCase") == 0                          // C02: some cases remove / add partitions while tokens are out (totals only are judged then)
+		dynCase := (purpose == "c02" || purpose == "c20") && rapid.IntRange(0, 4).Draw(t, "dynCase") == 0                          // C02: some cases remove / add partitions while tokens are out (totals only are judged then)
 		ev := rapid.Custom(func(t *rapid.T) dlEv {
 			switch k := rapid.IntRange(0, 21).Draw(t, "k"); {
 			case k >= 20:
@@ -186,7 +186,7 @@ func genDL(purpose string) func(t *rapid.T) dlCase {
 				return dlEv{K: "acq", Key: rapid.SampledFrom([]string{"a", "a", "b", "zz", "c"}).Draw(t, "key"), Dead: rapid.IntRange(0, 7).Draw(t, "dead") == 0}
 			case k < 16:
 				return dlEv{K: "done", Idx: rapid.IntRange(0, 1000).Draw(t, "idx"), Outcome: rapid.SampledFrom([]int{0, 0, 0, 0, 1, 2}).Draw(t, "outcome")}
-			case k >= 17 && k < 20 && (purpose == "c05" || (purpose == "c02" && dynCase)) && (c.Strategy == "lookup" || c.Strategy == "predicate") && rapid.IntRange(0, 1).Draw(t, "dyn") == 0:
+			case k >= 17 && k < 20 && (purpose == "c05" || ((purpose == "c02" || purpose == "c20") && dynCase)) && (c.Strategy == "lookup" || c.Strategy == "predicate") && rapid.IntRange(0, 1).Draw(t, "dyn") == 0:
 				// partitions come and go while the limiter runs (an update may find none registered)
 				return dlEv{K: rapid.SampledFrom([]string{"prmall", "prm", "padd", "padd"}).Draw(t, "dynk"), Key: rapid.SampledFrom(dlBins).Draw(t, "dynkey")}
 			default:
@@ -206,8 +206,8 @@ type dlToken struct {
 	l        core.Listener
 	key      string
 	start    time.Duration
-	inflight int    // in-flight gauge value right after the grant
-	bin      string // partition object the token was charged to ("" = unknown bin / not partitioned)
+	inflight int // in-flight gauge value right after the grant
+	obj      any // partition object the token was charged to (nil = unknown bin / not partitioned)
 }
 
 type dlBuilt struct {
@@ -467,7 +467,7 @@ func runDLInBubble(c dlCase, prop string) (out kit.Outcome) {
 	model.reset()
 	var held []dlToken
 	perKey := map[string]int{}
-	perBin := map[string]int{} // tokens outstanding per partition *object* charged ("" = the lookup strategy's unknown bin)
+	perObj := map[any]int{} // tokens outstanding per partition *object* charged (nil = the lookup strategy's unknown bin / not partitioned)
 	var (
 		refusedAtLimit, grantedAfterRelease, limitBelowHeld bool
 		releasedOnce                                        bool
@@ -580,9 +580,13 @@ func runDLInBubble(c dlCase, prop string) (out kit.Outcome) {
 				cancel()
 				actx = dctx
 			}
-			chargedBin := "" // the bin this request is charged to if granted: its partition when registered right now
+			var chargedObj any // the partition object this request is charged to if granted: the one registered under its key right now
 			if b.idxOf(e.Key) >= 0 {
-				chargedBin = e.Key
+				if b.lobj != nil {
+					chargedObj = b.lobj[e.Key]
+				} else if b.pobj != nil {
+					chargedObj = b.pobj[e.Key]
+				}
 			}
 			l, ok := b.lim.Acquire(actx)
 			if (l != nil) != ok {
@@ -609,7 +613,11 @@ func runDLInBubble(c dlCase, prop string) (out kit.Outcome) {
 				}
 			}
 			if prop == "c20" {
-				if o := dlCheckAcquireMetrics(c, b, i, e, ok, busyBefore, perKey, smp); o != nil {
+				binName := "<unknown>"
+				if chargedObj != nil {
+					binName = e.Key
+				}
+				if o := dlCheckAcquireMetrics(c, b, i, e, ok, busyBefore, binName, perObj[chargedObj], smp); o != nil {
 					return *o
 				}
 			}
@@ -617,9 +625,9 @@ func runDLInBubble(c dlCase, prop string) (out kit.Outcome) {
 				// in-flight at acquire = the calls outstanding, this one included; counted here and not read
 				// back from the limiter, so that a leaking counter cannot hide in the expected windows
 				inf := len(held) + 1
-				held = append(held, dlToken{l: l, key: e.Key, start: time.Since(t0), inflight: inf, bin: chargedBin})
+				held = append(held, dlToken{l: l, key: e.Key, start: time.Since(t0), inflight: inf, obj: chargedObj})
 				perKey[e.Key]++
-				perBin[chargedBin]++
+				perObj[chargedObj]++
 			}
 		case "done":
 			if len(held) == 0 {
@@ -632,7 +640,7 @@ func runDLInBubble(c dlCase, prop string) (out kit.Outcome) {
 			tk := held[k]
 			held = append(held[:k], held[k+1:]...)
 			perKey[tk.key]--
-			perBin[tk.bin]--
+			perObj[tk.obj]--
 			releasedOnce = true
 			if c.Threshold <= 0 && time.Since(t0) == tk.start {
 				time.Sleep(1) // without a filter a literal 0 ns sample would enter the window: outside the domain (0 is the window's "unset" marker)
@@ -676,18 +684,44 @@ func runDLInBubble(c dlCase, prop string) (out kit.Outcome) {
 			if g := int(b.lim.VerifInFlight()); g != len(held) {
 				return kit.Viol(c.Strategy+":limiter-gauge", "after event %d (%s): the limiter's in-flight gauge is %d, outstanding tokens=%d (windows closed so far: %d)", i, e.K, g, len(held), len(model.want))
 			}
-			if (b.lookup != nil || b.pred != nil) && dynParts && c.ReuseParts {
-				// partitions came and went but the objects are the same throughout: each object's count is exact,
-				// registered at the moment or not
-				for _, n := range dlBins {
-					got := 0
-					if b.lobj != nil {
-						got = b.lobj[n].BusyCount()
-					} else {
-						got = b.pobj[n].BusyCount()
+			if (b.lookup != nil || b.pred != nil) && dynParts {
+				// partitions came and went: every partition object that ever existed - registered at the moment or
+				// not, re-attached or replaced by a fresh one under the same name - counts exactly the tokens that
+				// were charged to it and are still out
+				for obj, want := range perObj {
+					if obj == nil {
+						continue
 					}
-					if got != perBin[n] {
-						return kit.Viol(c.Strategy+":bin-object-busy", "after event %d (%s): partition object %q (registered now: %v) reports busy=%d, tokens charged to it and not yet completed=%d", i, e.K, n, b.idxOf(n) >= 0, got, perBin[n])
+					got, name := 0, ""
+					switch o := obj.(type) {
+					case *strategy.LookupPartition:
+						got, name = o.BusyCount(), o.Name()
+					case *strategy.PredicatePartition:
+						got, name = o.BusyCount(), o.Name()
+					}
+					if got != want {
+						return kit.Viol(c.Strategy+":bin-object-busy", "after event %d (%s): a partition object %q (name registered now: %v, same objects re-attached: %v) reports busy=%d, tokens charged to it and not yet completed=%d", i, e.K, name, b.idxOf(name) >= 0, c.ReuseParts, got, want)
+					}
+				}
+				for _, n := range b.present {
+					// the registered objects that nobody was charged to yet read zero as well
+					var obj any
+					if b.lobj != nil {
+						obj = b.lobj[n]
+					} else {
+						obj = b.pobj[n]
+					}
+					if _, seen := perObj[obj]; !seen {
+						got := 0
+						switch o := obj.(type) {
+						case *strategy.LookupPartition:
+							got = o.BusyCount()
+						case *strategy.PredicatePartition:
+							got = o.BusyCount()
+						}
+						if got != 0 {
+							return kit.Viol(c.Strategy+":bin-object-busy", "after event %d (%s): partition object %q, to which no token has been charged, reports busy=%d", i, e.K, n, got)
+						}
 					}
 				}
 			}
